@@ -15,3 +15,11 @@ package cli
 //@ func QueryType
 //@   trusted
 //@   note body not verified
+
+// pathmap.add files v under path in the nested display map. No precondition is given on
+// purpose: callers pass client notification paths, which are empty for a root-level
+// update, and a display tree may already hold a scalar where the path continues.
+//@ func (pathmap).add
+//@   props C12
+//@   requires m != nil
+//@   modifies *
